@@ -19,7 +19,7 @@ ASSUMPTIONS = ["'equal' is numpy's ==: -0.0 and 0.0 may share a run; NaN never e
 ANCHORS = ["runlengtharray.py::RunLengthArray.from_array", "runlengtharray.py::RunLengthArray.to_array", "runlengtharray.py::RunLengthArray.__init__",
            "runlengtharray.py::RunLengthArray.remove_empty_intervals", "runlengtharray.py::RunLengthArray.join_runs",
            "util.py::unsafe_extend_left", "util.py::unsafe_extend_right", "runlengtharray.py::RunLengthArray.__array__"]
-KINDS = ["encode", "slice", "ufunc2", "ufunc2_derived", "unary", "scalar", "concat", "slice_derived", "ufunc2_inplace"]
+KINDS = ["encode", "slice", "ufunc2", "ufunc2_derived", "unary", "scalar", "concat", "slice_derived", "ufunc2_inplace", "slice_inplace"]
 FLOOR_TAGS = ["k:" + k for k in KINDS] + ["style:" + s for s in rl.STYLES] + ["kind:b", "kind:i", "kind:u", "kind:f", "dt:float16", "v:nonfinite", "slice:stepped", "slice:unit",
                                                                               "adjacent-inf", "adjacent-nan"]
 FLOOR_MONITORS = ["c14:roundtrip", "c14:canonical", "c14:joined", "c14:decode-independent", "inv:rla"]
@@ -110,6 +110,8 @@ def const_case(rng, tier, s, form):
 def run(case):
     if case.get("kind") == "bigencode":
         return run_big(case)
+    if case.get("kind") == "labels":
+        return rl.run_labels(case, "encode")
     RLA = CTX.lib.RunLengthArray
     dt = np.dtype(case["dtype"])
     v = np.array(case["vals"]).astype(dt)
@@ -292,6 +294,30 @@ def run(case):
         a = attempt(iop, x, rw)
         joined = True
         what = "x %s= encoded %s %s" % (case["uf"], w.dtype, short(w, 100))
+    elif kind == "slice_inplace":
+        # a window of the encoding (a plain slice) is updated with an in-place operator / out=: the name of the window then holds the updated values,
+        # and the encoding it was taken from still decodes to the array that was encoded
+        import operator
+        s_ = case["slice"]
+        cst = dt.type(case["scalar"]) if dt.kind != "b" else True
+        wv = attempt(lambda: r[s_])
+        if not wv.ok or not isinstance(wv.value, RLA) or len(wv.value) == 0:
+            return undefined("no non-empty window for this slice", tags)
+        x = wv.value
+        uf = getattr(np, case["uf"])
+        exp = attempt(uf, v[s_], cst)
+        if case.get("spelling") == "out":
+            a = attempt(lambda: uf(x, cst, out=x))          # (judged by what the call returns: the current tree computes a new encoding and leaves the out= target alone)
+            if not a.ok:
+                return undefined("out= is refused for run-length arrays", tags)
+        else:
+            iop = {"add": operator.iadd, "multiply": operator.imul, "subtract": operator.isub, "bitwise_or": operator.ior}[case["uf"]]
+            a = attempt(iop, x, cst)
+        joined = False
+        what = "w = rla[%s]; w %s= %r" % (short(s_), case["uf"], cst)
+        back = attempt(lambda: np.asarray(r.to_array()))
+        if not back.ok or not same_array(back.value, v, dtype=True) or rl.canonical(r):
+            return violated("%s on %s: afterwards the encoding the window was taken from decodes to %s" % (what, desc, repr(back) if not back.ok else short(back.value, 140)), tags + ["parent-written"])
     elif kind == "unary":
         uf = getattr(np, case["uf"])
         exp = attempt(uf, r.to_array())
@@ -363,6 +389,14 @@ def gen_case(rng, tier, kind=None, dtype=None, vclass=None, style=None):
             k = "i"
         w, _ = rl.gen_runs(rng, dtype, "small", maxlen, length=L)
         c.update(vals2=np.asarray(w).tolist(), uf=rng.choice(["add", "subtract", "multiply"] + (["bitwise_xor"] if k in "iu" else [])))
+    elif kind == "slice_inplace":
+        if k == "b":
+            c["dtype"] = dtype = "int64"
+            c["vals"] = [int(x) for x in c["vals"]]
+            k = "i"
+        a_ = rng.randint(0, max(0, L - 1))
+        c.update(slice=slice(a_, rng.randint(a_ + 1, L)) if rng.random() < 0.8 else gen.gen_slice(rng, L, steps=(None, 1)), uf=rng.choice(["add", "multiply", "subtract"] + (["bitwise_or"] if k in "iu" else [])),
+                 scalar=rng.choice([1, 2, 10, 0]), spelling=rng.choice(["op", "op", "out"]))
     elif kind == "ufunc2_derived":
         c.update(uf=rng.choice(["subtract", "equal", "less", "bitwise_xor" if k in "iub" else "maximum", "minimum", "not_equal"]), via=rng.choice(["self", "plus1", "astype", "times2"]))
     elif kind == "unary":
@@ -380,6 +414,8 @@ def gen_case(rng, tier, kind=None, dtype=None, vclass=None, style=None):
 def directed():
     import random
     rng = random.Random(1414)
+    for _ in range(160):
+        yield rl.gen_labels(rng)
     for dtype in rl.DT_RL:
         for style in rl.STYLES:
             for kind in KINDS:
@@ -425,4 +461,6 @@ def sweep(tier):
 
 
 def random_case(rng, tier):
+    if rng.random() < 0.04:
+        return rl.gen_labels(rng, 14 if tier == "quick" else 40)
     return gen_case(rng, tier)
